@@ -429,4 +429,92 @@ theorem PoolWorld.run_ok : ∀ (ops : List Op) {w : PoolWorld}, PoolOK w → Poo
       simp only [PoolWorld.run, List.foldl_cons]
       exact PoolWorld.run_ok ops (PoolWorld.step_ok op h)
 
+/-! ### stated durations -/
+
+/-- the endpoints a class draws do not depend on the durations -/
+theorem newPairs_withDur (n : Net) (p : Pop) (c : Choice) (s : DurPar) : n.newPairs p (c.withDur s) = n.newPairs p c := by
+  obtain ⟨kind, variant, table, participant, debut⟩ := n
+  cases kind <;> rfl
+
+/-- what `mkCols` writes into the `dur` column is the column the duration parameter states -/
+theorem DurPar.map_durAt {s : DurPar} {n : Nat} {col : List Rat} (h : s.column n = some col) :
+    (List.range n).map s.durAt = col := by
+  cases s with
+  | plain d =>
+      simp only [DurPar.column, Option.some.injEq] at h; subst h
+      have hf : (DurPar.plain d).durAt = fun _ => d := by funext i; rfl
+      rw [hf, List.map_const', List.length_range]
+  | drawn ds =>
+      simp only [DurPar.column] at h
+      split at h
+      · rename_i hl
+        simp only [Option.some.injEq] at h; subst h
+        apply List.ext_getElem
+        · simp [hl]
+        · intro i h1 h2
+          have hf : (DurPar.drawn ds).durAt i = ds.getD i 0 := rfl
+          simp [hf, List.getD_eq_getElem?_getD, List.getElem?_eq_getElem h2]
+      · simp at h
+
+/-- the `dur` column after appending the columns `mkCols` builds -/
+theorem Table.append_dur {t t' : Table} {a b : List Nat} {c : Choice} (hd : t.keys.dur = true)
+    (h : t.append (mkCols a b c) = .ok t') : t'.dur = t.dur ++ (List.range a.length).map c.durAt := by
+  unfold Table.append at h
+  split at h
+  · rename_i a' b' be d ac st sp h1 h2 h3 h4 h5 h6 h7
+    simp only [Except.ok.injEq] at h; subst h
+    simp only [mkCols, Option.some.injEq, need, hd, ↓reduceIte] at h1 h4
+    subst h1 h4
+    rfl
+  · simp at h
+
+/-- `add_pairs` with a stated duration parameter: the new rows carry exactly the stated durations -/
+theorem addPairsStated_rows {n n' : Net} {p : Pop} {c : Choice} {s : DurPar} {a b : List Nat}
+    (hw : n.table.WF) (hd : n.table.keys.dur = true) (hk : n.kind ≠ .disk)
+    (hnp : n.newPairs p c = .ok (some (a, b))) (h : n.addPairsStated p c s = .ok n') :
+    ∃ col, s.column a.length = some col ∧ n'.table.rows = n.table.rows ++ a.zip (b.zip col) ∧
+      n'.table.dur = n.table.dur ++ col := by
+  unfold Net.addPairsStated at h
+  rw [hnp] at h
+  dsimp only at h
+  cases hcol : s.column a.length with
+  | none => rw [hcol] at h; simp at h
+  | some col =>
+      rw [hcol] at h
+      dsimp only at h
+      refine ⟨col, rfl, ?_⟩
+      unfold Net.addPairs at h
+      rw [newPairs_withDur, hnp] at h
+      simp only [hk, ↓reduceIte] at h
+      split at h
+      · rename_i t ht
+        simp only [Except.ok.injEq] at h; subst h
+        have hmap : (List.range a.length).map (c.withDur s).durAt = col := DurPar.map_durAt hcol
+        refine ⟨?_, ?_⟩
+        · rw [Table.rows_append hw hd (newPairs_length hnp) ht, hmap]
+        · rw [Table.append_dur hd ht, hmap]
+      · simp at h
+
+theorem zipWith_add_const (ti : Rat) : ∀ (durs : List Rat),
+    List.zipWith (· + ·) (durs.map (fun _ => ti)) durs = durs.map (fun d => ti + d)
+  | [] => rfl
+  | d :: ds => by simp [zipWith_add_const ti ds]
+
+/-- `MaternalNet.add_pairs` without an explicit `start`: the new edges start at the network's `ti`, carry the durations
+    they were given and end at `ti + dur` -/
+theorem matAddPairsAt_cols {t t' : Table} {m u : List Nat} {durs : List Rat} {ti : Rat}
+    (hd : t.keys.dur = true) (hse : t.keys.se = true) (h : t.matAddPairsAt m u durs none ti = .ok t') :
+    t'.p1 = t.p1 ++ m ∧ t'.p2 = t.p2 ++ u ∧ t'.dur = t.dur ++ durs ∧ t'.start = t.start ++ durs.map (fun _ => ti) ∧
+    t'.stop = t.stop ++ durs.map (fun d => ti + d) ∧ t'.beta = t.beta ++ List.replicate m.length 1 := by
+  unfold Table.matAddPairsAt Table.matAddPairs Table.append at h
+  simp only [Option.getD_none, need, hd, hse, ↓reduceIte] at h
+  split at h
+  · rename_i a' b' be d ac st sp h1 h2 h3 h4 h5 h6 h7
+    simp only [Except.ok.injEq] at h; subst h
+    simp only [Option.some.injEq] at h1 h2 h3 h4 h6 h7
+    subst h1 h2 h3 h4 h6 h7
+    refine ⟨rfl, rfl, rfl, rfl, ?_, rfl⟩
+    simp only [zipWith_add_const]
+  · simp at h
+
 end StarsimModel.Network
